@@ -8,7 +8,7 @@ C12 line-protocol driver:  `lake env lean --run Sc3Verif/C12/Driver.lean < ops`
   q b2s x | q s2b x | q b2bars x | q bars2b x | q invb x | q invs x | q invbars x
   q nextbar <x|->
   q ntog <num> <num> <num|->         num = i:<int> | f:<p/q>
-  q playat <num> <num>
+  q playat <num> <num> [entry-point[:spelling]]   clock.play / Routine.play / Routine.run / @routine.run / resume
   ticks d n                          (last line of a case) wake-up beats of a second routine yielding d, n times
 Each op prints  `<ok|v:p/q|E:err> | now beats tempo baseBarBeat beatsPerBar baseBar`.
 -/
@@ -70,6 +70,7 @@ def parseOp (ws : List String) : Option Op :=
   | ["q", "nextbar", x] => do some (.qNextBar (← parseOptRat x))
   | ["q", "ntog", q, p, r] => do some (.qNtog (← parseNum q) (← parseNum p) (← parseOptNum r))
   | ["q", "playat", q, p] => do some (.qPlayAt (← parseNum q) (← parseNum p))
+  | ["q", "playat", q, p, _via] => do some (.qPlayAt (← parseNum q) (← parseNum p))   -- entry point: same beat
   | _ => none
 
 partial def loop (h : IO.FS.Stream) (out : IO.FS.Stream) (st : Option St) (b0 : Rat := 0) : IO Unit := do
